@@ -166,6 +166,7 @@ pub fn check(case: &TreeCase) -> Result<CaseInfo, String> {
             let named = match &err {
                 ConstructError::ModeConflict { method } => msg.contains(FACTS[*method as usize].path),
                 ConstructError::EmptyStub { .. } => !msg.is_empty(),
+                ConstructError::NoMutexApi { .. } => !msg.is_empty(),
             };
             if !named {
                 return Err(format!("construction of an inconsistent setup ({err:?}) panicked without naming the method: {msg:?}"));
@@ -173,6 +174,7 @@ pub fn check(case: &TreeCase) -> Result<CaseInfo, String> {
             info = info.class(match err {
                 ConstructError::ModeConflict { .. } => "rejected-up-front:mode-conflict",
                 ConstructError::EmptyStub { .. } => "rejected-up-front:empty-stub",
+                ConstructError::NoMutexApi { .. } => "rejected-up-front:return-not-producible(no mutex api)",
             });
             info.nontrivial = true;
         }
@@ -312,10 +314,11 @@ pub fn run(ctx: &Ctx) -> Verdict {
     ];
     v.subs.push(super::replay_corpus(ctx));
     v.subs.push(vcore::run_enumerated(ctx, "arity-sweep", arity_sweep(), |c| check(c).map(|i| CaseInfo { nontrivial: true, classes: i.classes })));
-    let n = ctx.tier.pick(8_000, 160_000);
+    let n = ctx.tier.pick(40_000, 1_000_000);
     v.subs.push(vcore::run_proptest(ctx, "trees", n, order_case(), check));
     v.subs.push(vcore::run_proptest(ctx, "offenders", n, offender_case(), check));
     v.subs.push(vcore::sub_report_from("progen", &["--sub-json", "C14", ctx.tier.name()], "compile-fail"));
+    v.subs.extend(super::variant_reports(ctx, &["nostd-spin", "nostd-nomutex"]));
     v
 }
 
